@@ -96,14 +96,16 @@ Theorem C05_v2_single_file_without_length : forall info name root n r,
   meta_version_of info = 2 ->
   lookup ck_file_tree info =
     Some (BDict [(name, BDict [(ck_empty, BDict [(ck_length, BInt n); (ck_pieces_root, BStr r)])])]) ->
-  check_paths info name root true = Some ([mk_fi root n (Some r)], n).
+  check_paths info name root true = Some ([mk_fi root n (Some r) None], n).
 Proof. exact check_paths_v2_single_file_without_length. Qed.
 Print Assumptions C05_v2_single_file_without_length.
 
-(* v1, several files: one entry per listed file, in list order, under the root, with the RECORDED length *)
-Theorem C05_v1_files_listed_exactly : forall root (entries : list (list bytes * Z)),
-  Forall (fun e => fst e <> []) entries ->
-  v1_files root (map v1_item entries) = Some (map (fun e => mk_fi (root ++ fst e) (snd e) None) entries).
+(* v1, several files: one entry per listed file, in list order, under the root, with the RECORDED length and the recorded
+   "attr" if the entry has one (an entry = (path elements, length, attr); a padding entry is recognised by its attr: D39) *)
+Theorem C05_v1_files_listed_exactly : forall root (entries : list v1_entry),
+  Forall (fun e => ve_path e <> []) entries ->
+  v1_files root (map v1_item entries) =
+  Some (map (fun e => mk_fi (root ++ ve_path e) (ve_length e) None (ve_attr e)) entries).
 Proof. exact v1_files_exact. Qed.
 Print Assumptions C05_v1_files_listed_exactly.
 
@@ -152,18 +154,24 @@ Theorem C05_own_v1_metafiles_verify : forall (H1 H256 : bytes -> bytes) (B : nat
 Proof. exact own_v1_plain_verify. Qed.
 Print Assumptions C05_own_v1_metafiles_verify.
 
-(* v1 with --align: the pad entries (which never exist on disk: no_pad_files) are accounted as zeros; the
-   recorded size is every file rounded up to the piece length (C05_own_v1_aligned_size) *)
+(* v1 with --align: the pad entries are accounted as zeros WHATEVER the file system holds at their paths -- in particular
+   for a payload that has a file of its own at .pad/<n> (the repair of D39: a padding entry is recognised by its "attr");
+   the recorded size is every file rounded up to the piece length (C05_own_v1_aligned_size) *)
 Theorem C05_own_v1_metafiles_verify_aligned : forall (H1 H256 : bytes -> bytes) (B : nat),
   (forall x, length (H1 x) = 20) ->
   forall o rootstr name pl t fs base path,
   0 < pl -> wf_node t -> has_file t ->
   find_root (fs_exists fs) (fs_listdir fs) name path = Some base -> holds fs base t ->
-  no_pad_files fs base ->
   let n := v1_recorded_size true rootstr pl t in
   recheck_model H1 H256 B fs (create_v1 H1 true o rootstr name pl t) path = Some (Z.of_nat n, n, n).
 Proof. exact own_v1_aligned_verify. Qed.
 Print Assumptions C05_own_v1_metafiles_verify_aligned.
+
+(* a padding entry is zeros for FeedChecker whatever the disk holds at its path (the glue of Model/RecheckInit.v) *)
+Theorem C05_padding_entry_is_zeros : forall fs path n r,
+  feed_entry fs (mk_fi path n r (Some ["p"%char])) = Some None.
+Proof. exact feed_entry_padding. Qed.
+Print Assumptions C05_padding_entry_is_zeros.
 
 Theorem C05_own_v1_aligned_size : forall rootstr pl es,
   v1_recorded_size true rootstr pl (Dir es) =
@@ -171,17 +179,16 @@ Theorem C05_own_v1_aligned_size : forall rootstr pl es,
 Proof. exact v1_recorded_size_aligned. Qed.
 Print Assumptions C05_own_v1_aligned_size.
 
-(* ... and without the guard no_pad_files the statement is false of the code as it is: a payload that has a
-   file of its own at a pad path (.pad/<n>) is hashed as zeros by the creator and read from disk by
-   FeedChecker -- intact content, 4 of 8 bytes matched (real code: 50.0 for {.pad/1, a of 16383 bytes},
-   piece length 16 KiB, align=True) *)
-Theorem C05_own_v1_aligned_pad_path_collision_refuted :
+(* ... which was false of the code before that repair (recheck_model_old: iter_pieces reading every existing path): a
+   payload with a file of its own at a pad path was hashed as zeros by the creator and read from disk by FeedChecker --
+   intact content, 4 of 8 bytes matched (real code before 5b63ee0: 50.0 for {.pad/1, a of 16383 bytes}, 16 KiB, align) *)
+Theorem C05_own_v1_aligned_pad_path_collision_before_repair_refuted :
   exists (H1 H256 : bytes -> bytes) (B : nat) o rootstr name pl t fs base,
     (forall x, length (H1 x) = 20) /\ 0 < pl /\ wf_node t /\ has_file t /\ last base [] = name /\
     holds fs base t /\
-    recheck_model H1 H256 B fs (create_v1 H1 true o rootstr name pl t) base = Some (8%Z, 4, 8).
-Proof. exact aligned_pad_path_collision_refuted. Qed.
-Print Assumptions C05_own_v1_aligned_pad_path_collision_refuted.
+    recheck_model_old H1 H256 B fs (create_v1 H1 true o rootstr name pl t) base = Some (8%Z, 4, 8).
+Proof. exact aligned_pad_path_collision_before_repair_refuted. Qed.
+Print Assumptions C05_own_v1_aligned_pad_path_collision_before_repair_refuted.
 
 (* v2: TorrentFileV2 and TorrentAssembler(meta_version 2) (v2_output = either).  no_layer_collision: no two
    files larger than a piece have the same root and different piece layers ("piece layers" is keyed by the
@@ -212,7 +219,7 @@ Theorem C05_own_v1_files_listed : forall (H1 : bytes -> bytes) o rootstr name pl
   let fl := snd (filelist_total rootstr (Dir es)) in
   Permutation.Permutation fl (files_of [] (Dir es)) /\
   check_paths (info_of m) name base f =
-  Some (map (fun x => mk_fi (base ++ fst x) (Z.of_nat (length (snd x))) None) fl,
+  Some (map (fun x => mk_fi (base ++ fst x) (Z.of_nat (length (snd x))) None None) fl,
         Z.of_nat (RecheckSpec.sum_nat (map (fun x => length (snd x)) fl))).
 Proof. exact own_v1_check_paths. Qed.
 Print Assumptions C05_own_v1_files_listed.
